@@ -116,12 +116,16 @@ def main(tier):
     chk.rule("OMIT", "bundle-omission predicates of the v2 encoding consider every field", floor=2)
     chk.rule("MODIF", "combining adds elements only to a copy whose Modifiable flag is set", floor=5)
     chk.rule("VERSION", "the v1 encoding is attempted unless the v1 conversion itself would refuse", floor=3)
+    chk.rule("MEMOLEN", "the stripped memo plaintext decoder accepts every length the encoder emits", floor=1)
+    chk.rule("SIGFLAGS", "a transparent signature updates the Modifiable flags as its sighash type prescribes", floor=1)
     chk.rule("control", "positive controls", floor=2)
     w = zf.World(extract.facts_dir("all"), ["pczt", "zcash_transparent"])
     merge_rules(chk, w)
     merge_carry_rules(chk, w)
     modif_rules(chk, w)
     version_rules(chk, w)
+    sigflags_rules(chk, w)
+    memo_len_rules(chk, w)
     role_rules(chk, w)
     xwire_rules(chk, w)
     omit_rules(chk, w)
@@ -397,6 +401,171 @@ SPECIAL = {
 }
 
 
+def sigflags_rules(chk, w):
+    """SIGFLAGS: what a transparent signature does to the Modifiable flags is a function of its sighash type
+    (PCZT spec, Signer): without ANYONECANPAY the inputs can no longer change; unless the base type is NONE
+    the outputs can no longer change (SINGLE included - removing the paired output would not remove the
+    signature); a SINGLE signature sets Has-SIGHASH_SINGLE; the shielded parts are always frozen. The stores
+    to `global.tx_modifiable` in the signing function and the tests that guard them are evaluated for every
+    sighash byte 0..255 and compared with that table."""
+    import guards as G
+    fs = [f for f in w.fns.values() if f.p.endswith("roles::signer::Signer::generate_or_append_transparent_signature")]
+    if len(fs) != 1:
+        chk.fail("SIGFLAGS", "missing", "Signer::generate_or_append_transparent_signature not found")
+        return
+    f = fs[0]
+    b, du = f.body, defuse.DefUse(f.body)
+    C = {k: (w.consts.get("pczt::common::" + k) or {}).get("v") for k in
+         ("FLAG_TRANSPARENT_INPUTS_MODIFIABLE", "FLAG_TRANSPARENT_OUTPUTS_MODIFIABLE", "FLAG_HAS_SIGHASH_SINGLE",
+          "FLAG_SHIELDED_MODIFIABLE")}
+    if None in C.values():
+        chk.fail("SIGFLAGS", "consts", "flag constants not found: %s" % C)
+        return
+
+    class Unknown(Exception):
+        pass
+
+    def ev(o, h):
+        if o[0] == "const" and isinstance(o[1], int):
+            return o[1]
+        if o[0] == "cast":
+            return ev(o[2], h)
+        if o[0] == "un" and o[1] == "Not":
+            return (~ev(o[2], h)) & 0xff
+        if o[0] == "call" and o[1].endswith("::encode") and "sighash_type" in defuse.show(o):
+            return h
+        if o[0] == "bin":
+            a, c = ev(o[2], h), ev(o[3], h)
+            fn = {"BitAnd": lambda: a & c, "BitOr": lambda: a | c, "BitXor": lambda: a ^ c,
+                  "Eq": lambda: int(a == c), "Ne": lambda: int(a != c), "Lt": lambda: int(a < c),
+                  "Le": lambda: int(a <= c), "Gt": lambda: int(a > c), "Ge": lambda: int(a >= c)}.get(o[1])
+            if fn is None:
+                raise Unknown(o[1])
+            return fn()
+        raise Unknown(defuse.show(o)[:60])
+    stores = []
+    for bi, blk in enumerate(b.blocks):
+        if blk.cleanup:
+            continue
+        for st in blk.stmts:
+            if st.kind == "=" and st.place.proj and st.place.proj[-1] == ".tx_modifiable" and st.rv.kind == "bin":
+                cur, m = du.origin(st.rv.ops[0]), du.origin(st.rv.ops[1])
+                if not defuse.show(cur).endswith("tx_modifiable"):
+                    cur, m = m, cur
+                try:
+                    mv = ev(m, 0)
+                except Unknown:
+                    mv = None
+                if st.rv.op == "BitAnd" and mv is not None:
+                    eff = ("clear", (~mv) & 0xff)
+                elif st.rv.op == "BitOr" and mv is not None:
+                    eff = ("set", mv)
+                else:
+                    chk.fail("SIGFLAGS", "store", "tx_modifiable is updated by `%s %s`: not a flag set / clear this rule can read"
+                             % (st.rv.op, defuse.show(m)[:40]), st.span.loc())
+                    return
+                conds = []
+                for sw, v, _tb in G.edge_conditions(b, bi):
+                    tm = b.blocks[sw].term
+                    if tm.span.macros or tm.discr is None or tm.discr.kind not in ("copy", "move"):
+                        continue
+                    o = du.origin(tm.discr)
+                    if "sighash_type" in defuse.show(o):
+                        conds.append((o, v, [a for a, _t in tm.arms]))
+                stores.append((eff, conds, st))
+    if len(stores) < 4:
+        chk.fail("SIGFLAGS", "stores", "expected the four flag updates of the Signer, found %d" % len(stores), f.span.loc())
+        return
+    acp, none_, single = 0x80, 2, 3
+    bad = None
+    try:
+        for h in range(256):
+            got = set()
+            for eff, conds, _st in stores:
+                run = True
+                for o, v, arms in conds:
+                    x = ev(o, h)
+                    if (v == "else" and x in arms) or (v != "else" and x != v):
+                        run = False
+                        break
+                if run:
+                    got.add(eff)
+            base = h & ~acp & 0xff
+            want = {("clear", C["FLAG_SHIELDED_MODIFIABLE"])}
+            if h & acp == 0:
+                want.add(("clear", C["FLAG_TRANSPARENT_INPUTS_MODIFIABLE"]))
+            if base != none_:
+                want.add(("clear", C["FLAG_TRANSPARENT_OUTPUTS_MODIFIABLE"]))
+            if base == single:
+                want.add(("set", C["FLAG_HAS_SIGHASH_SINGLE"]))
+            if got != want and bad is None:
+                bad = "for sighash byte 0x%02x the Signer performs %s, the specification prescribes %s" % (
+                    h, sorted(got), sorted(want))
+    except Unknown as e:
+        chk.fail("SIGFLAGS", "tests", "a flag update is guarded by a test this rule cannot evaluate: %s" % e, f.span.loc())
+        return
+    if bad is None:
+        chk.ok("SIGFLAGS", "for every sighash byte: inputs frozen unless ANYONECANPAY, outputs frozen unless base NONE, "
+               "Has-SIGHASH_SINGLE set iff base SINGLE, shielded always frozen (256 values evaluated)", sample=True)
+    else:
+        chk.fail("SIGFLAGS", "table", bad, f.span.loc())
+
+
+def memo_len_rules(chk, w):
+    """MEMOLEN: the v2 encoding stores an Orchard-protocol memo plaintext with its trailing zeros stripped,
+    so the encoder emits every length 0..=MEMO_SIZE (a memo whose last byte is non-zero has nothing to
+    strip) and the decoder must accept exactly those: from_stripped_bytes answers TooLong for a length
+    above MEMO_SIZE and for no other. The guard of the TooLong error is evaluated at the boundary."""
+    import guards as G
+    fs = [f for f in w.fns.values() if f.p.endswith("orchard::MemoPlaintext::from_stripped_bytes")]
+    ms = (w.consts.get("pczt::orchard::MEMO_SIZE") or {}).get("v")
+    if len(fs) != 1 or not isinstance(ms, int):
+        chk.fail("MEMOLEN", "missing", "MemoPlaintext::from_stripped_bytes / MEMO_SIZE not found")
+        return
+    f = fs[0]
+    b, du = f.body, defuse.DefUse(f.body)
+    errs = [bi for bi, blk in enumerate(b.blocks) if not blk.cleanup for st in blk.stmts
+            if st.kind == "=" and st.rv.kind == "agg" and st.rv.agg[0] == "adt" and st.rv.agg[2] == "TooLong"]
+    if len(errs) != 1:
+        chk.fail("MEMOLEN", "shape", "expected one TooLong error site, found %d" % len(errs), f.span.loc())
+        return
+    tests = []
+    for sw, v, _tb in G.edge_conditions(b, errs[0]):
+        tm = b.blocks[sw].term
+        o = du.origin(tm.discr) if tm.discr is not None and tm.discr.kind in ("copy", "move") else None
+        tr = G.truth(tm, v)
+        if o is not None and o[0] == "bin" and tr is not None and "len(" in defuse.show(o):
+            tests.append((o, tr))
+    if len(tests) != 1:
+        chk.fail("MEMOLEN", "guard", "the TooLong error is not guarded by one length comparison (%d found)" % len(tests),
+                 f.span.loc())
+        return
+    o, tr = tests[0]
+
+    def val(x, n):
+        if x[0] == "const":
+            return x[1]
+        if x[0] == "constdef" and x[1].endswith("MEMO_SIZE"):
+            return ms
+        if x[0] == "call" and x[1].endswith("::len"):
+            return n
+        return None
+
+    def holds(n):
+        a, c = val(o[2], n), val(o[3], n)
+        if a is None or c is None:
+            return None
+        r = {"Gt": a > c, "Ge": a >= c, "Lt": a < c, "Le": a <= c, "Eq": a == c, "Ne": a != c}.get(o[1])
+        return None if r is None else (r == tr)
+    got = [holds(n) for n in (0, ms - 1, ms, ms + 1)]
+    if got == [False, False, False, True]:
+        chk.ok("MEMOLEN", "from_stripped_bytes: TooLong exactly for lengths above MEMO_SIZE = %d (the encoder emits 0..=%d)"
+               % (ms, ms), sample=True)
+    else:
+        chk.fail("MEMOLEN", "boundary", "TooLong is answered for lengths (0, %d, %d, %d) as %s; the encoder emits every length up "
+                 "to %d, so a full-length memo no longer parses" % (ms - 1, ms, ms + 1, got, ms), f.span.loc())
+
+
 def merge_rules(chk, w):
     for name in MERGE_FNS:
         try:
@@ -470,6 +639,20 @@ def merge_rules(chk, w):
                       "merged with" if kind == "merge" else "compared with", loc))
             covered[pa] = True
             covered[pb] = True
+        # the global fields that define the transaction are compared, never filled in: every one of them is
+        # always present in a well-formed PCZT and an omitted fallback_lock_time MEANS lock time 0, so "one side
+        # lacks it" is a conflict, not missing knowledge
+        if name == "pczt::common::Global::merge":
+            for fld in sorted(EFFECTING["pczt::common::Global"]):
+                kinds = sorted({kind for kind, pa, pb, _bb, _x, _fc in sites if pa and pa[-1] == fld})
+                if kinds and all(k in ("cmp", "cmpbin") for k in kinds):
+                    chk.ok("MERGE-pair", "Global::merge: `%s` is compared strictly (a difference, including present / absent, "
+                           "fails the merge)" % fld)
+                else:
+                    chk.fail("MERGE-pair", "%s/%s/strict" % (name, fld), "the transaction-defining field `%s` is %s: two PCZTs "
+                             "that disagree on it (one side omitting it counts) describe different transactions and must "
+                             "not combine" % (fld, "merged with merge_optional" if "merge" in kinds else "not compared"),
+                             f.span.loc())
         # coverage
         for adt, paths in contexts:
             for path, owner, kind in paths:
